@@ -20,11 +20,19 @@
      C06_steps_total_and_flags (any number of steps)
    * "the step is total"                                         : C06_vfit_total, C06_quad_total,
      C06_pixel_total, C06_steps_total_and_flags.
+   Tie to the source (T-gen, second half of this file): Gen/RefineKernels.v is regenerated on every run
+   from the Python text of Vfit.refinement_method, Quadratic.refinement_method and of the pixel body of
+   AbstractRefinement.loop_refinement (translator/gen_refine_kernels.py, float semantics Lib/FloatQ.v).
+   C06_gen_vfit_eq, C06_gen_quadratic_eq, C06_gen_pixel_eq are the per-run obligations "what the code
+   says now computes what the model computes, for all inputs"; the C06_gen_* theorems after them restate
+   the headline theorems on the generated definitions (G.vfit, G.quadratic, gstep = G.loop_pixel called
+   with the generated method).
    "Reachable by a legal pipeline" is over-approximated by the invariant [pixel_ok]: one cost per
    sample of [dmin,dmax], and a VALID pixel carries a number of [dmin,dmax] -- any rational, on or off
    the sampling grid (winner-takes-all sample, filtered, interpolated, already refined). *)
 From Coq Require Import ZArith QArith Qabs List Bool.
-From Pandora Require Import Model.Refine Spec.Refine Proofs.RefineP Gen.RefineConsts.
+From Pandora Require Import Lib.FloatQ Model.Refine Model.RefineGen Spec.Refine Proofs.RefineP Proofs.RefineGenP
+     Gen.RefineConsts.
 Import ListNotations.
 Open Scope Q_scope.
 
@@ -247,6 +255,166 @@ Proof.
   split; [reflexivity|]. split; [intros [H|H]; discriminate H|]. vm_compute. reflexivity.
 Qed.
 
+(* ================================================================== the kernels regenerated from the source
+
+   G.vfit, G.quadratic : consts -> cost[0] -> cost[1] -> cost[2] -> disp -> measure -> fres
+   G.loop_pixel        : the body of the (row, col) loop nest of loop_refinement on one pixel
+   (Gen/RefineKernels.v, rewritten from pandora/refinement/*.py at every run; fl = option Q, NaN = None).
+   gmethod K me = the generated method of the class registered as me; gstep = G.loop_pixel called with it
+   (Model/RefineGen.v). *)
+
+(* Per-run obligations: the generated kernels compute what the hand-written model computes, whatever
+   the inputs (component-wise rational equality; NaN and exceptions matched exactly). *)
+Theorem C06_gen_vfit_eq : forall m oc0 c1 oc2 d,
+  fres_eq (G.vfit K oc0 (Some c1) oc2 d m) (lift (vfit K m oc0 c1 oc2)).
+Proof. exact (gen_vfit_eq K). Qed.
+
+Theorem C06_gen_quadratic_eq : forall m oc0 c1 oc2 d,
+  fres_eq (G.quadratic K oc0 (Some c1) oc2 d m) (lift (quadratic K m oc0 c1 oc2)).
+Proof. exact (gen_quadratic_eq K). Qed.
+
+Theorem C06_gen_pixel_eq : forall me m dmin dmax s cv disp mask, (0 < s)%Z ->
+  pres_eq (gstep K me m dmin dmax s cv disp mask) (loop_pixel K me m dmin dmax s cv disp mask).
+Proof. exact (gen_loop_pixel_eq K). Qed.
+
+(* The two generated methods, every triple with a numeric centre (NaN neighbours included), every
+   measure: a result is a pair of NUMBERS, the shift is at most 1/2, the cost is not worse than the
+   centre's; no exception. *)
+Theorem C06_gen_vfit_shift_half : forall m oc0 c1 oc2 d sh co fl,
+  G.vfit K oc0 (Some c1) oc2 d m = FRet sh co fl ->
+  exists q c, sh = Some q /\ co = Some c /\ Qabs q <= 1 # 2 /\ not_worse (kind_of m) c c1.
+Proof. exact (gen_method_ret K Vfit). Qed.
+
+Theorem C06_gen_quad_shift_half : forall m oc0 c1 oc2 d sh co fl,
+  G.quadratic K oc0 (Some c1) oc2 d m = FRet sh co fl ->
+  exists q c, sh = Some q /\ co = Some c /\ Qabs q <= 1 # 2 /\ not_worse (kind_of m) c c1.
+Proof. exact (gen_method_ret K Quadratic). Qed.
+
+Theorem C06_gen_vfit_total : forall m oc0 c1 oc2 d, G.vfit K oc0 (Some c1) oc2 d m <> FRaise.
+Proof. exact (gen_method_total K Vfit). Qed.
+
+Theorem C06_gen_quad_total : forall m oc0 c1 oc2 d, G.quadratic K oc0 (Some c1) oc2 d m <> FRaise.
+Proof. exact (gen_method_total K Quadratic). Qed.
+
+(* closed forms of the user guide outside the 1e-15 guard band, the sample kept inside it *)
+Theorem C06_gen_vfit_closed_form : forall m c0 c1 c2 d,
+  is_extremum (kind_of m) c0 c1 c2 ->
+  (eps15 <= Qabs (vfit_slope (kind_of m) c0 c1 c2) ->
+     exists sh co, G.vfit K (Some c0) (Some c1) (Some c2) d m = FRet (Some sh) (Some co) 0
+                   /\ sh == vfit_x (kind_of m) c0 c1 c2 /\ co == vfit_y (kind_of m) c0 c1 c2)
+  /\ (Qabs (vfit_slope (kind_of m) c0 c1 c2) < eps15 ->
+      exists sh co, G.vfit K (Some c0) (Some c1) (Some c2) d m = FRet (Some sh) (Some co) 0
+                    /\ sh == 0 /\ co == c1).
+Proof. exact (gen_vfit_closed_form K). Qed.
+
+Theorem C06_gen_quad_closed_form : forall m c0 c1 c2 d,
+  is_extremum (kind_of m) c0 c1 c2 ->
+  (eps15 <= Qabs (quad_a c0 c1 c2) ->
+     exists sh co, G.quadratic K (Some c0) (Some c1) (Some c2) d m = FRet (Some sh) (Some co) 0
+                   /\ sh == quad_x c0 c1 c2 /\ co == quad_y c0 c1 c2)
+  /\ (Qabs (quad_a c0 c1 c2) < eps15 ->
+      exists sh co, G.quadratic K (Some c0) (Some c1) (Some c2) d m = FRet (Some sh) (Some co) 0
+                    /\ sh == 0 /\ co == c1).
+Proof. exact (gen_quad_closed_form K). Qed.
+
+(* "stopped" (shift 0, cost of the sample, bit 3) as soon as a neighbour is NaN or the centre is not an
+   extremum; flag 0 otherwise *)
+Theorem C06_gen_method_stop : forall me m oc0 c1 oc2 d,
+  (oc0 = None \/ oc2 = None
+   \/ exists c0 c2, oc0 = Some c0 /\ oc2 = Some c2 /\ ~ is_extremum (kind_of m) c0 c1 c2) ->
+  exists sh co, gmethod K me oc0 (Some c1) oc2 d m = FRet (Some sh) (Some co) (k_stopped K)
+                /\ sh == 0 /\ co == c1.
+Proof. exact (gen_method_stop K). Qed.
+
+Theorem C06_gen_method_go : forall me m c0 c1 c2 d,
+  is_extremum (kind_of m) c0 c1 c2 ->
+  exists sh co, gmethod K me (Some c0) (Some c1) (Some c2) d m = FRet (Some sh) (Some co) 0.
+Proof. exact (gen_method_go K). Qed.
+
+Section GenPixel.
+  Variables (me : method) (m : measure) (dmin dmax : Q) (s : Z).
+  Hypothesis Hs : (0 < s)%Z.
+  Let valid := is_valid K.
+  Let fits := cv_fits dmin dmax s.
+  Let inside := in_interval dmin dmax.
+  Let step := gstep K me m dmin dmax s.
+
+  Theorem C06_gen_pixel_invalid_untouched : forall cv disp mask,
+    ~ valid mask -> exists d', step cv disp mask = POk d' None mask /\ oq_eq d' disp.
+  Proof. exact (gen_pixel_invalid K me m dmin dmax s Hs). Qed.
+
+  (* C06_pixel_props on the generated pixel body *)
+  Theorem C06_gen_pixel_props : forall cv d mask r,
+    valid mask -> fits cv -> inside d -> step cv (Some d) mask = r ->
+    exists d' c' mask', r = POk (Some d') c' mask'
+      /\ inside d'
+      /\ Qabs (d' - d) * inject_Z s <= 1 # 2
+      /\ (mask' = mask \/ mask' = Z.lor mask bit3)
+      /\ (forall c1, cost_at cv (sample_index dmin s d) = Some c1 ->
+            exists co, c' = Some co /\ not_worse (kind_of m) co c1)
+      /\ (cost_at cv (sample_index dmin s d) = None -> d' == d /\ c' = None /\ mask' = mask).
+  Proof. exact (gen_pixel_props K C06_consts_wf me m dmin dmax s Hs). Qed.
+
+  Theorem C06_gen_pixel_total : forall cv disp mask,
+    fits cv -> (valid mask -> exists d, disp = Some d /\ inside d) ->
+    exists d' c' mask', step cv disp mask = POk d' c' mask'.
+  Proof. exact (gen_pixel_total K C06_consts_wf me m dmin dmax s Hs). Qed.
+
+  (* C06_pixel_bit3_iff on the generated pixel body and the generated method *)
+  Theorem C06_gen_pixel_bit3_iff : forall cv d mask c1,
+    valid mask -> fits cv -> inside d ->
+    let k := sample_index dmin s d in
+    cost_at cv k = Some c1 ->
+    (must_stop (kind_of m) dmin dmax s cv d c1 ->
+       exists d' c', step cv (Some d) mask = POk (Some d') (Some c') (Z.lor mask bit3) /\ d' == d /\ c' == c1)
+    /\ (~ must_stop (kind_of m) dmin dmax s cv d c1 ->
+        exists c0 c2 sh co d' c', cost_at cv (k - 1) = Some c0 /\ cost_at cv (k + 1) = Some c2
+          /\ is_extremum (kind_of m) c0 c1 c2
+          /\ gmethod K me (Some c0) (Some c1) (Some c2) (Some d) m = FRet (Some sh) (Some co) 0
+          /\ step cv (Some d) mask = POk (Some d') (Some c') mask
+          /\ d' == d + sh / inject_Z s /\ c' == co).
+  Proof. exact (gen_pixel_bit3_iff K C06_consts_wf me m dmin dmax s Hs). Qed.
+
+  Theorem C06_gen_pixel_other_bits : forall cv disp mask d' c' mask',
+    step cv disp mask = POk d' c' mask' ->
+    other_bits mask' = other_bits mask
+    /\ (Z.testbit mask 3 = true -> Z.testbit mask' 3 = true)
+    /\ Z.land mask' (k_invalid K) = Z.land mask (k_invalid K).
+  Proof.
+    intros cv disp mask d' c' mask' H.
+    exact (bits_of_step K C06_consts_wf mask mask' (gen_pixel_bits K C06_consts_wf me m dmin dmax s Hs _ _ _ _ _ _ H)).
+  Qed.
+
+  Theorem C06_gen_pixel_moved_costed : forall cv d mask d' c' mask',
+    valid mask -> fits cv -> inside d ->
+    step cv (Some d) mask = POk (Some d') c' mask' -> ~ d' == d ->
+    exists c0 c1 c2, cost_at cv (sample_index dmin s d - 1) = Some c0
+                     /\ cost_at cv (sample_index dmin s d) = Some c1
+                     /\ cost_at cv (sample_index dmin s d + 1) = Some c2
+                     /\ is_extremum (kind_of m) c0 c1 c2
+                     /\ ~ near_end dmin dmax s d
+                     /\ mask' = mask.
+  Proof. exact (gen_pixel_moved_costed K C06_consts_wf me m dmin dmax s Hs). Qed.
+End GenPixel.
+
+(* C06_steps_total_and_flags with the generated pixel body in every step *)
+Theorem C06_gen_steps_total_and_flags : forall m dmin dmax s, (0 < s)%Z ->
+  forall mes px last, Forall (pixel_ok K dmin dmax s) px ->
+  exists l, grefine_steps K mes m dmin dmax s px last = IOk l
+    /\ ((mes = [] /\ l = last)
+        \/ (Forall2 (fun p t => flags_kept K (px_mask p) (out_mask t)) px l
+            /\ Forall (pixel_ok K dmin dmax s) (reload px l))).
+Proof. exact (grefine_steps_ok K C06_consts_wf). Qed.
+
+(* Non-vacuity on the generated kernels: the same inputs as C06_example_fits / C06_example_pixel *)
+Example C06_example_gen :
+  fres_eq (G.vfit K (Some (65 # 2)) (Some 28) (Some (69 # 2)) (Some 0) MMin) (FRet (Some (-2 # 13)) (Some 27) 0)
+  /\ fres_eq (G.quadratic K (Some (65 # 2)) (Some 28) (Some (69 # 2)) (Some 0) MMin)
+             (FRet (Some (-1 # 11)) (Some (615 # 22)) 0)
+  /\ (let cv := map (fun z => Some (inject_Z z)) [9; 8; 7; 6; 2; 5; 7; 8; 9]%Z in
+      pres_eq (gstep K Vfit MMin (-2) 2 2 cv (Some (3 # 8)) 4) (POk (Some (7 # 16)) (Some (3 # 2)) 4)).
+Proof. split; [|split]; vm_compute; repeat split; reflexivity. Qed.
+
 Print Assumptions C06_consts_wf.
 Print Assumptions C06_vfit_shift_half.
 Print Assumptions C06_quad_shift_half.
@@ -271,3 +439,21 @@ Print Assumptions C06_pixel_other_bits.
 Print Assumptions C06_pixel_moved_costed.
 Print Assumptions C06_near_end_on_grid.
 Print Assumptions C06_steps_total_and_flags.
+Print Assumptions C06_gen_vfit_eq.
+Print Assumptions C06_gen_quadratic_eq.
+Print Assumptions C06_gen_pixel_eq.
+Print Assumptions C06_gen_vfit_shift_half.
+Print Assumptions C06_gen_quad_shift_half.
+Print Assumptions C06_gen_vfit_total.
+Print Assumptions C06_gen_quad_total.
+Print Assumptions C06_gen_vfit_closed_form.
+Print Assumptions C06_gen_quad_closed_form.
+Print Assumptions C06_gen_method_stop.
+Print Assumptions C06_gen_method_go.
+Print Assumptions C06_gen_pixel_invalid_untouched.
+Print Assumptions C06_gen_pixel_props.
+Print Assumptions C06_gen_pixel_total.
+Print Assumptions C06_gen_pixel_bit3_iff.
+Print Assumptions C06_gen_pixel_other_bits.
+Print Assumptions C06_gen_pixel_moved_costed.
+Print Assumptions C06_gen_steps_total_and_flags.
